@@ -116,7 +116,7 @@ def finish(ctx, explanation, decides, not_decided, exhaustive=False, extra=None)
     """Apply floors and known findings, write evidence, print verdict lines; returns exit code."""
     fl = {}
     fp = os.path.join(VERIF, 'ofverif', 'floors.json')
-    if os.path.exists(fp):
+    if os.path.exists(fp) and not os.environ.get('OFVERIF_FREEZING'):      # (set only by tools/freeze_floors.py and during rule development)
         fl = json.load(open(fp)).get(ctx.prop, {}).get(ctx.tier, {})
     floor_problem = None
     for rule, need in fl.items():
